@@ -570,3 +570,43 @@ fn scalar_kinds_and_integer_boundaries_survive_the_streaming_path() {
 	}
 	assert!(bad.is_empty(), "{} violations, first: {:?}", bad.len(), &bad[..bad.len().min(3)]);
 }
+
+#[test]
+fn detection_judges_the_same_thing_from_a_slice_and_from_a_reader() {
+	// streams whose FIRST value is one format's and whose rest is not: both supply modes must pick the same format
+	let inputs: [&[u8]; 8] = [
+		b"{\"a\": 1}\n---\nfoo: bar\n",
+		b"[1, 2]\n# a YAML comment\n",
+		b"{\"a\": 1} trailing text\n",
+		b"[1]\n[2]\n{\n",
+		b"\x92\x01\x02\xc1\xc1",
+		b"\x81\xa1a\x01 then text",
+		b"{\"k\": [1, {\"z\": null}]}\n- not json\n",
+		b"[]\n\t\n%%%\n",
+	];
+	let mut bad = vec![];
+	for input in inputs {
+		for to in [Format::Json, Format::Yaml] {
+			let mut o1 = Vec::new();
+			let r1 = xt::translate_slice(input, None, to, &mut o1).map_err(|e| e.to_string());
+			for chunk in [1usize, 2, 4096] {
+				struct Tiny<'a>(&'a [u8], usize);
+				impl<'a> Read for Tiny<'a> {
+					fn read(&mut self, b: &mut [u8]) -> io::Result<usize> {
+						let n = self.1.min(self.0.len()).min(b.len());
+						b[..n].copy_from_slice(&self.0[..n]);
+						self.0 = &self.0[n..];
+						Ok(n)
+					}
+				}
+				let mut o2 = Vec::new();
+				let r2 = xt::translate_reader(Tiny(input, chunk), None, to, &mut o2).map_err(|e| e.to_string());
+				let comparable = o1.starts_with(&o2) || o2.starts_with(&o1);
+				if r1.is_ok() != r2.is_ok() || (r1.is_ok() && o1 != o2) || !comparable {
+					bad.push(format!("{:?} -> {to}: slice {r1:?} {:?}, reader (reads of {chunk}) {r2:?} {:?}", String::from_utf8_lossy(input), String::from_utf8_lossy(&o1), String::from_utf8_lossy(&o2)));
+				}
+			}
+		}
+	}
+	assert!(bad.is_empty(), "{} violations, first: {:?}", bad.len(), &bad[..bad.len().min(3)]);
+}
